@@ -558,3 +558,112 @@ def raise_stack_limit():
         want = min(want, hard)
     if soft != resource.RLIM_INFINITY and soft < want:
         resource.setrlimit(resource.RLIMIT_STACK, (want, hard))
+
+
+# ------------------------------------------------------------------ the class registry (unit reg_ops)
+
+class RegistrySandbox:
+    """run class statements against the REAL metaclasses with SerializableType's tables emptied, then put
+    everything back (the registered test classes and the handshake messages must survive)"""
+
+    def __enter__(self):
+        T = S.SerializableType
+        self.saved = (T.next_type_id, dict(T.custom_id), dict(T.registry), dict(T.names), dict(S.SerializableEnumType._enums))
+        T.next_type_id = 128
+        T.custom_id = {}
+        T.registry = {}
+        T.names = {}
+        return self
+
+    def __exit__(self, *a):
+        T = S.SerializableType
+        T.next_type_id, T.custom_id, T.registry, T.names = self.saved[0], self.saved[1], self.saved[2], self.saved[3]
+        S.SerializableEnumType._enums = self.saved[4]
+        return False
+
+
+def registry_ops_impl(ops):
+    """ops: [0, module, base] setRootId | [1, module, name] class(Serializable) | [2, module, name] class(SerializableEnum).
+    -> ([[type_id, code] per op], registry items, names items, next_type_id, custom_id items, classes) with classes
+    numbered by class statement"""
+    T = S.SerializableType
+    res, classes = [], []
+    with RegistrySandbox():
+        for op in ops:
+            if op[0] == 0:
+                T.setRootId("regmod%d" % op[1], op[2])
+                res.append([0, 0])
+                continue
+            ns = {"__module__": "regmod%d" % op[1], "__qualname__": "RegCls%d" % op[2]}
+            holder = {}
+            try:
+                if op[0] == 1:
+                    ns.update({"x": 0, "__annotations__": {"x": int}})
+                    orig_new = type.__new__
+                    cls = T("RegCls%d" % op[2], (S.Serializable,), ns)
+                else:
+                    ns.update({"A": 1, "B": 2})
+                    cls = S.SerializableEnumType("RegCls%d" % op[2], (S.SerializableEnum,), ns)
+                classes.append(cls)
+                res.append([int(cls.type_id), 0])
+            except ValueError as e:
+                classes.append(None)
+                msg = str(e)
+                code = 1 if "Serializable ID" in msg else (2 if "Serializable Name" in msg else 9)
+                tid = int(msg.split()[2].split(":")[0]) if code in (1, 2) else -1
+                res.append([tid, code])
+        ident = {id(c): i for i, c in enumerate(classes) if c is not None}
+        unknown = 10 ** 6
+        reg = [[int(t), ident.get(id(c), unknown)] for t, c in T.registry.items()]
+        names = [[int(n[6:]), ident.get(id(c), unknown)] for n, c in T.names.items()]
+        nxt = int(T.next_type_id)
+        cust = [[int(m[6:]), int(b)] for m, b in T.custom_id.items()]
+        # the property on the implementation alone: every class reachable through the decode table finished its
+        # definition (is one of the classes the statements returned), sits under its own type_id, no class sits
+        # under two ids, and every class whose statement succeeded is what its type id decodes to
+        # (the `names` table is compared with the model only: same-named enums overwrite each other there by design)
+        problems = []
+        seen = {}
+        for t, c in T.registry.items():
+            if id(c) not in ident:
+                problems.append(["registry holds a class whose definition was refused", int(t)])
+            elif int(c.type_id) != int(t):
+                problems.append(["class registered under an id that is not its type_id", int(t), int(c.type_id)])
+            if id(c) in seen:
+                problems.append(["one class under two ids", seen[id(c)], int(t)])
+            seen[id(c)] = int(t)
+        for c in classes:
+            if c is not None and T.registry.get(c.type_id) is not c:
+                problems.append(["a successfully defined class is not what its type id decodes to", int(c.type_id), ident[id(c)]])
+    return res, reg, names, nxt, cust, problems
+
+
+def gen_registry_ops(r, n):
+    ops = []
+    for _ in range(n):
+        k = r.random()
+        if k < 0.2:
+            ops.append([0, r.randrange(3), r.choice([128, 129, 130, 131, 200, 201, 1024])])
+        else:
+            ops.append([1 if r.random() < 0.55 else 2, r.randrange(3), r.randrange(7)])
+    return ops
+
+
+def registry_unit(run, n):
+    """unit reg_ops + implementation-only oracle; enum definitions that would take over an id or a name in use
+    (the enum metaclass does not check) are generated only when allow_overwrite"""
+    r = run.rng
+    reqs, impl = [], []
+    for i in range(n):
+        ops = gen_registry_ops(r, r.randrange(1, 12))
+        if i == 0:
+            ops = [[0, 1, 2048], [2, 1, 0], [2, 1, 1], [2, 1, 2], [1, 1, 3], [1, 1, 3], [1, 1, 4]]     # setRootId, enums back to back, a refused duplicate name
+        res, reg, names, nxt, cust, problems = registry_ops_impl(ops)
+        reqs.append([ops])
+        impl.append([res, reg, names, nxt, cust])
+        for pr in problems[:1]:
+            run.oracle_violation("registry-not-a-bijection", {"ops": ops, "problem": pr}, "serializable.py metaclasses")
+        if any(x[1] for x in res):
+            run.nt(("registry-refusal", i))
+    run.compare("reg_ops", reqs, impl, run.model.call_many("reg_ops", reqs))
+    run.count("registry_histories", n)
